@@ -81,6 +81,10 @@ def run(sim):
         body = sim.draw_choice([b"abc", b"", b"0123456789" * 3], "req-body")
         close = last and sim.draw_bool(0.25, "conn-close")
         w = (b"POST" if fr != "none" else b"GET") + b" /r%d HTTP/1.1\r\nHost: h.test\r\n" % i
+        if sim.draw_bool(0.15, "stray-crlf"):
+            # one empty line before a request-line is legal and must be ignored (RFC 9112 2.2; some clients send it after a POST body)
+            w = b"\r\n" + w
+            sim.probe("stray_crlf_before_request")
         if close:
             w += b"Connection: close\r\n"
         if fr == "length":
